@@ -286,11 +286,14 @@ Section Opt.
   Definition rep (ce : centry) (c : icell) : Prop :=
     (fst ce = fst c /\ snd ce = Some (snd c)) \/
     (snd ce = None /\ cid_contains (fst ce) (fst c) = true /\ fst ce <> fst c).
-  (** an entry is sound: its edges are index edges, and an entry without index cell properly
-      contains at least one index cell (so it is not a leaf cell and can be split) *)
+  (** an entry is sound: an entry with contents is an index cell under ITS OWN id with exactly
+      that cell's contents, and an entry without index cell properly contains at least one
+      index cell (so it is not a leaf cell and can be split) *)
   Definition centry_ok (ce : centry) : Prop :=
-    (forall es, snd ce = Some es -> forall e, In e es -> in_index e) /\
+    (forall es, snd ce = Some es -> exists c, In c (x_cells x) /\ fst c = fst ce /\ snd c = es) /\
     (snd ce = None -> exists c, In c (x_cells x) /\ rep ce c).
+  Lemma centry_ok_edges ce es e : centry_ok ce -> snd ce = Some es -> In e es -> in_index e.
+  Proof. intros [H _] Es He. destruct (H es Es) as (c & Hc & _ & <-). exists c. auto. Qed.
   Definition qrep (en : qentry D) (c : icell) : Prop := rep (q_id en, q_cell en) c.
 
   Variable Vq : Z -> Prop.              (* the cell ids the search may meet (valid cell ids) *)
@@ -383,7 +386,7 @@ Section Opt.
         destruct es; [contradiction|discriminate].
       - destruct (Nat.ltb (length es) min_edges_to_enqueue) eqn:E1; [|apply enqueue_spec; assumption].
         split; [|split].
-        + apply pedges_Inv; [|exact Iv]. intros e He. eapply (proj1 Cok); eauto.
+        + apply pedges_Inv; [|exact Iv]. intros e He. eapply centry_ok_edges; eauto.
         + apply pedges_ext.
         + intros c Hc [[_ R]|[R _]] e He; [|congruence].
           rewrite Es in R. injection R as R. left. destruct Iv as (_ & T & _).
@@ -437,7 +440,7 @@ Section Opt.
           - apply X. }
         destruct (q_cell en) as [es|] eqn:Ec.
         + apply Gen.
-          * apply pedges_Inv; [|exact Iv1]. intros e He. eapply (proj1 Cen); [cbn; reflexivity|exact He].
+          * apply pedges_Inv; [|exact Iv1]. intros e He. eapply centry_ok_edges; [exact Cen|cbn; reflexivity|exact He].
           * apply pedges_ext.
           * intros c Hc [[_ R]|[R _]] e He; cbn in R; [|congruence].
             rewrite Ec in R. injection R as R. left.
